@@ -12,8 +12,11 @@ def const_programs(draw):
     lines = []
     n = draw(st.integers(1, 6))
     fn_lines = []
+    # near-miss groups (value, variant, variant): constants that are == but not the same
+    # constant must stay distinct when they meet in one document / one process
+    group = draw(gen_const.const_groups(3)) if draw(st.integers(0, 2)) == 0 else None
     for i in range(n):
-        spec = draw(gen_const.const_specs(max_leaves=6))
+        spec = group[i] if (group is not None and i < len(group)) else draw(gen_const.const_specs(max_leaves=6))
         lit = gen_const.literal(spec)
         fs = gen_const.fset_items_literal(spec)
         pos = draw(st.integers(0, 6))
@@ -49,6 +52,9 @@ def const_programs(draw):
 
 @st.composite
 def alterations(draw):
+    if draw(st.integers(0, 5)) == 0:
+        return {"alter": {"kind": "additional_group", "value": ["tuple", draw(gen_const.const_groups(3))]}, "min_version": 7,
+                "_label": "altered_code"}
     kind = draw(st.sampled_from(["operand", "operand", "operand", "additional", "additional_fn", "docstring", "names",
                                  "varnames", "argname", "co_name", "filename", "global_name"]))
     if kind in ("operand", "additional", "additional_fn"):
@@ -98,6 +104,10 @@ def fixed_cases():
                     ["complex", "8000000000000000", "7ff0000000000000"], ["str", "\ud800"], ["tuple", [["str", "\udc80"], ["bytes", "ff"]]],
                     ["int", str(2 ** 53)], ["int", str(-(2 ** 53))], ["int", str(2 ** 53 + 1)], ["float", "0010000000000000"]]:
             out.append({"alter": {"kind": kind, "value": val}, "min_version": 7, "normalize": False, "_label": "altered_code"})
+    for fam in gen_const._EQ_FAMILIES:
+        out.append({"alter": {"kind": "additional_group", "value": ["tuple", fam[:4]]}, "min_version": 7, "normalize": False, "_label": "altered_code"})
+        out.append({"alter": {"kind": "additional_group", "value": ["tuple", [["tuple", [f, ["float", gen_const.f2h(1.0)]]] for f in fam[:4]]]},
+                    "min_version": 7, "normalize": False, "_label": "altered_code"})
     for kind in ["docstring", "names", "varnames", "argname", "co_name", "filename", "global_name"]:
         for val in ["\ud800", "a\udc80"]:
             for norm in (False, True):
